@@ -123,6 +123,10 @@ class Vec(object):
     def __str__(self):
         return "Vec%r" % (self.xs,)
 
+    def stat(self):
+        """a result whose type is a SUBCLASS of tuple: not a value - it keeps its type, field names and methods"""
+        return V.Point(len(self.xs), self.xs[0] if self.xs else None)
+
     def grow(self, x):
         self.xs.append(x)
         return len(self.xs)
@@ -273,7 +277,7 @@ def ops_for(kind):
         "generator": [("send", (None,)), ("send", (7,)), ("throw", (ValueError,)), ("throw", (ValueError("x"),)), ("close", ())],
         "file": [("read", (2,)), ("read", ()), ("seek", (0,)), ("seek", (3,)), ("tell", ()), ("write", (b"zz",)), ("truncate", (2,)),
                  ("close", ()), ("readline", ()), ("getvalue", ()), ("readable", ())],
-        "vec": [("grow", (0,)), ("boom", ()), ("__call__", (1,)), ("__call__", (1, 2))],
+        "vec": [("grow", (0,)), ("boom", ()), ("__call__", (1,)), ("__call__", (1, 2)), ("stat", ())],
     }
     for name, args in meth.get(kind, []):
         add("call:%s%r" % (name, args), lambda o, x, name=name, args=args: getattr(o, name)(*args))
